@@ -3,9 +3,12 @@
     newick_token.go [isWhitespace/isIdent], newick_nodestack.go, newick_parser.go
     [Parse/parseIter/consumeComment]).  No proofs in this file.
 
-    Strings are byte strings.  The Go lexer reads runes and writes them back unchanged, all
-    Newick metacharacters are ASCII, so the model is exact for valid UTF-8 input without NUL
-    (rune 0 is the lexer's EOF marker; invalid UTF-8 is turned into U+FFFD by bufio.ReadRune).
+    Strings are byte strings.  The Go lexer reads runes (bufio.Reader.ReadRune) and writes
+    them back into its literals, all Newick metacharacters are ASCII: [utf8_sanitize] is the
+    effect of decoding and re-encoding (every byte that does not start a valid UTF-8 sequence
+    becomes U+FFFD, bytes EF BF BD), and the lexer works on the sanitized bytes.  Rune 0 is the
+    lexer's EOF marker: a NUL byte in the input is read as EOF (and consumed); what follows it
+    is read by the next call.
 
     Text <-> number conversion is external (strconv): everything is parameterised by
       [fmt       : Q -> string]          strconv.FormatFloat(x,'f',-1,64)
@@ -50,13 +53,68 @@ Definition is_meta (c : ascii) : bool :=
 Definition is_ident (ign : bool) (c : ascii) : bool :=
   negb (is_meta c) && (ign || negb (Ascii.eqb c ";")).
 
+(** rune 0 = eof *)
+Definition is_nul (c : ascii) : bool := Ascii.eqb c "000".
+
 (** longest prefix whose characters satisfy [p], and the rest (the read/unread loops of
-    scanWhitespace and scanIdent) *)
+    scanWhitespace and scanIdent: a character that does not belong is unread, rune 0 ends the
+    loop and stays consumed) *)
 Fixpoint span (p : ascii -> bool) (s : string) : string * string :=
   match s with
   | EmptyString => (EmptyString, EmptyString)
-  | String c r => if p c then let '(a, b) := span p r in (String c a, b) else (EmptyString, s)
+  | String c r => if is_nul c then (EmptyString, r)
+                  else if p c then let '(a, b) := span p r in (String c a, b) else (EmptyString, s)
   end.
+
+(** * bufio.Reader.ReadRune / bytes.Buffer.WriteRune: utf8.DecodeRune on the remaining input;
+    a valid sequence is copied, otherwise ONE byte is consumed and U+FFFD is produced.
+    Byte by byte: [upend] are the bytes of a sequence begun and not finished, [uneed] the
+    number of continuation bytes still expected, [ulo..uhi] the accepted range of the next
+    one (acceptRanges; later ones 80..BF).  When the sequence breaks, its lead byte and each
+    pending continuation byte (none of which can start a sequence) give one U+FFFD each and
+    the offending byte is looked at afresh. *)
+Definition repl : string := String "239" (String "191" (String "189" EmptyString)).
+Record ust : Type := mkU { upend : string; uneed : nat; ulo : nat; uhi : nat }.
+Definition uclean : ust := mkU EmptyString 0 0 0.
+Fixpoint repl_n (s : string) : string :=
+  match s with EmptyString => EmptyString | String _ r => (repl ++ repl_n r)%string end.
+
+Definition ustart (c : ascii) : string * ust :=
+  let n := nat_of_ascii c in
+  let one := String c EmptyString in
+  if Nat.ltb n 128 then (one, uclean)
+  else if Nat.leb 194 n && Nat.leb n 223 then (EmptyString, mkU one 1 128 191)
+  else if Nat.eqb n 224 then (EmptyString, mkU one 2 160 191)
+  else if (Nat.leb 225 n && Nat.leb n 236) || (Nat.leb 238 n && Nat.leb n 239) then (EmptyString, mkU one 2 128 191)
+  else if Nat.eqb n 237 then (EmptyString, mkU one 2 128 159)
+  else if Nat.eqb n 240 then (EmptyString, mkU one 3 144 191)
+  else if Nat.leb 241 n && Nat.leb n 243 then (EmptyString, mkU one 3 128 191)
+  else if Nat.eqb n 244 then (EmptyString, mkU one 3 128 143)
+  else (repl, uclean).
+
+Definition ufeed (st : ust) (c : ascii) : string * ust :=
+  match uneed st with
+  | O => ustart c
+  | S k =>
+    let n := nat_of_ascii c in
+    if Nat.leb (ulo st) n && Nat.leb n (uhi st) then
+      match k with
+      | O => ((upend st ++ String c EmptyString)%string, uclean)
+      | S _ => (EmptyString, mkU (upend st ++ String c EmptyString)%string k 128 191)
+      end
+    else let '(o, st') := ustart c in ((repl_n (upend st) ++ o)%string, st')
+  end.
+
+(** output and final state (the pending bytes are not flushed) *)
+Fixpoint ufold (st : ust) (s : string) : string * ust :=
+  match s with
+  | EmptyString => (EmptyString, st)
+  | String c r => let '(o, st1) := ufeed st c in
+                  let '(o2, st2) := ufold st1 r in ((o ++ o2)%string, st2)
+  end.
+
+Definition utf8_sanitize (s : string) : string :=
+  let '(o, st) := ufold uclean s in (o ++ repl_n (upend st))%string.
 
 (** strings.Split(lit, "/") has exactly two parts *)
 Fixpoint split_slash (s : string) : string * option string :=
@@ -263,7 +321,8 @@ Section Num.
     match s with
     | EmptyString => (EOF, "", "")
     | String c r =>
-      if is_ws c then let '(w, r') := span is_ws r in (WS, String c w, r')
+      if is_nul c then (EOF, "", r)
+      else if is_ws c then let '(w, r') := span is_ws r in (WS, String c w, r')
       else if Ascii.eqb c "(" then (OPENPAR, "(", r)
       else if Ascii.eqb c ")" then (CLOSEPAR, ")", r)
       else if Ascii.eqb c "[" then (OPENBRACK, "[", r)
@@ -415,7 +474,8 @@ Section Num.
       else if perr st then Stop (IErr "strconv.ParseFloat: parsing")
       else Stop (IRet st pre)
     | EOF =>
-      if perr st then Stop (IErr "strconv.ParseFloat: parsing") else Stop (IRet st pre)
+      (* nothing is unscanned: after a NUL the caller goes on reading behind it *)
+      if perr st then Stop (IErr "strconv.ParseFloat: parsing") else Stop (IRet st r)
     | WS | ILLEGAL => Cont st r      (* not produced by scanIgnoreWhitespace *)
     end.
 
@@ -462,5 +522,8 @@ Section Num.
         end
     end.
 
-  Definition parse (s : string) : pres := parse_fuel (S (String.length s)) s.
+  (** the parser on the bytes as the lexer sees them *)
+  Definition parse_raw (s : string) : pres := parse_fuel (S (String.length s)) s.
+
+  Definition parse (s : string) : pres := parse_raw (utf8_sanitize s).
 End Num.
